@@ -206,6 +206,11 @@ func GenerateClient(seed uint64, prop, tier string) *Plan {
 	n := r.Range(1, 5)
 	var up []UserPlan
 	nu := r.Range(1, 2)
+	shutdownAct := r.Chance(1, 8)
+	if shutdownAct {
+		nu = 1 // nothing is dialled after the loop of the last connection has exited
+	}
+	late := map[int][]UserOp{}
 	for u := 0; u < nu; u++ {
 		up = append(up, UserPlan{})
 	}
@@ -249,15 +254,48 @@ func GenerateClient(seed uint64, prop, tier string) *Plan {
 				cp.Traffic = append(cp.Traffic, st)
 			}
 		}
+		if shutdownAct && i == n-1 {
+			// a callback of the last connection asks for the shutdown: its loop exits
+			// (closing its connections); Client.Stop still has to stop the rest, call
+			// OnShutdown once and return
+			switch r.Intn(3) {
+			case 0:
+				cp.OpenAct = 2
+			case 1:
+				cp.CloseAct = 2
+				if !cp.UDP && len(cp.Peer) > 0 && cp.Peer[len(cp.Peer)-1].K != "close" {
+					cp.Peer = append(cp.Peer, PeerOp{K: "close"})
+				}
+			default:
+				if len(cp.Traffic) > 0 {
+					cp.Traffic[len(cp.Traffic)-1].Act = 2
+				} else {
+					cp.OpenAct = 2
+				}
+			}
+		}
 		p.Conns = append(p.Conns, cp)
 		u := r.Intn(nu)
 		if r.Chance(1, 3) {
 			up[u].Ops = append(up[u].Ops, UserOp{K: "pause", N: r.Range(1, 30)})
 		}
 		up[u].Ops = append(up[u].Ops, UserOp{K: []string{"cdial", "cenroll"}[r.Intn(2)], Conn: i})
+		// requests kept from an earlier connection of this user that has been closed
+		// meanwhile: the new connection may have taken its descriptor number
+		up[u].Ops = append(up[u].Ops, late[u]...)
+		late[u] = nil
 		if r.Chance(1, 3) {
 			up[u].Ops = append(up[u].Ops, UserOp{K: []string{"asyncwrite", "wake", "closecb", "execute"}[r.Intn(4)], Conn: i, N: r.Pick(1, 1000, wb)})
 		}
+		if r.Chance(1, 4) {
+			up[u].Ops = append(up[u].Ops, UserOp{K: "closecb", Conn: i})
+			for k := r.Range(1, 2); k > 0; k-- {
+				late[u] = append(late[u], UserOp{K: []string{"wake", "close", "closecb", "asyncwrite"}[r.Intn(4)], Conn: i, N: 1, Late: true})
+			}
+		}
+	}
+	for u := range up {
+		up[u].Ops = append(up[u].Ops, late[u]...)
 	}
 	p.Users = up
 	p.Stop.Source = "client.Stop"
